@@ -1,9 +1,18 @@
 import AgVerif.Model.Proto
 import AgVerif.Model.Translate
+import AgVerif.Model.LitCtx
 open AgVerif AgVerif.Proto AgVerif.Translate
 
 /-- `eval <opcode> <dom> <lit> <i1> <i2> <i3> <l1> <l2> <l3>`:
     the Java text of the translation, its outcome under the JLS model, the outcome of the Dalvik specification -/
+def showJ : Except JavaSem.Err JavaSem.Val → String
+  | .error .compile => "rejected"
+  | .error .arith => "AE"
+  | .ok (.bool b) => if b then "taken" else "not-taken"
+  | .ok v => match regVal v with
+    | some d => showDVal d
+    | none => "rejected"
+
 def handle (line : String) : String :=
   match words line with
   | ["eval", op, dom, lit, i1, i2, i3, l1, l2, l3] =>
@@ -21,6 +30,16 @@ def handle (line : String) : String :=
          | none => "no-core")
       | _, _ => "no-row"
     | _, _, _, _, _, _, _, _ => "bad-op"
+  | ["ctx", fam, op, aux, v, i1, l1] =>
+    -- `ctx <family> <op or _> <aux> <constant> <int value of v1> <long value of v1>`: text and JLS outcome of a writer context
+    match v.toInt?, i1.toInt?, l1.toInt? with
+    | some v, some i1, some l1 =>
+      (match ctxExpr fam (if op == "_" then "" else op) aux v with
+       | some (e, _) =>
+         let ρ : JavaSem.Env := ⟨fun _ => BitVec.ofInt 32 i1, fun _ => BitVec.ofInt 64 l1⟩
+         "text=" ++ printExpr e ++ " | java=" ++ showJ (JavaSem.eval ρ e)
+       | none => "no-context")
+    | _, _, _ => "bad-op"
   | _ => "bad-op"
 
 def main : IO Unit := runMain handle
